@@ -177,6 +177,14 @@ def run_script(f, nworkers, inputs, script, extra=0, retry=True, return_results=
         if 'abort' in enq_calls:
             raise Livelock()
     pool_mod.time.sleep = sleep
+    import signal
+
+    def on_alarm(signum, frame):
+        # a run that makes no observable step for this long is spinning inside Pool.run
+        enq_calls.append('abort')
+        raise Livelock()
+    old_handler = signal.signal(signal.SIGALRM, on_alarm)
+    signal.setitimer(signal.ITIMER_REAL, 1.0)
     try:
         try:
             if not started:
@@ -192,6 +200,8 @@ def run_script(f, nworkers, inputs, script, extra=0, retry=True, return_results=
         except Exception as e:
             out = ('internal', type(e).__name__)
     finally:
+        signal.setitimer(signal.ITIMER_REAL, 0)
+        signal.signal(signal.SIGALRM, old_handler)
         pool_mod.mp = orig_mp
         pool_mod.time.sleep = orig_sleep
     readable = []
